@@ -258,6 +258,91 @@ def f2(ctx: Ctx, K):
 
 
 # F3: join ------------------------------------------------------------------------------------------------------------
+def f_defaults(ctx: Ctx):
+    """Documented defaults of the flags that change what a call means: `encoded` is False everywhere (text is quoted unless
+    the caller says it is already encoded) and keep_query / keep_fragment are False (path modifiers clear both)."""
+    model = ctx.model
+    rule = "F-DEF"
+    ctx.rule(rule, floor=4, what="defaults of encoded / keep_query / keep_fragment")
+    import ast as _ast
+    for fi in model.all_funcs():
+        if fi.module != "_url" or not (fi.cls == "URL" and (not fi.name.startswith("_") or fi.name in ("__new__", "_make_child"))):
+            continue
+        for p_ in ("encoded", "keep_query", "keep_fragment"):
+            if p_ not in fi.params:
+                continue
+            d = fi.param_default(p_)
+            ctx.instance(rule)
+            ok = isinstance(d, _ast.Constant) and d.value is False
+            ctx.ob(rule, fi.qual, f"default of `{p_}`", ok,
+                   f"`{p_}` defaults to {_ast.unparse(d) if d is not None else 'nothing'}: " +
+                   ("text passed without the flag would be stored unquoted" if p_ == "encoded" else
+                    "the modifier would keep the component it is documented to clear"), where(fi, fi.node), sample="False")
+
+
+def f_build_args(ctx: Ctx):
+    """Every authority component supplied to the builders reaches the stored authority: on each path, user / password /
+    host / port is either known to be absent (None / empty) or part of what is stored."""
+    from ..interp import deep_walk
+    from .immut import fresh_view
+    model = ctx.model
+    rule = "F-BUILD"
+    ctx.rule(rule, floor=2, what="no supplied authority component is dropped by the builders")
+    for q in ("_url.URL.build", "_url.build_pre_encoded_url"):
+        fi = model.func(q)
+        try:
+            r = analyze(model, fi, merge=False)
+        except AnalysisError:
+            r = analyze(model, fi)
+        ctx.functions.add(q)
+        groups = {}
+        for s, v, node in r.returns:
+            view = fresh_view(model, s, v)
+            if view is None:
+                if v[0] == "call" and v[1][0] == "global" and v[1][2] in ("build_pre_encoded_url",):
+                    continue        # delegation: judged there
+                continue
+            net = view.get("_netloc")
+            if net is None:
+                continue
+            if truth(("param", "authority"), s.facts) is True:
+                continue            # the authority string is used instead of the parts
+            if any(fv is True and k[0] == "cmp" and k[1] == "Is" and k[3] == NONE and model.declared_not_none(k[2], fi.module)
+                   for k, fv in s.facts.items()):
+                continue            # infeasible: assumes None from a callee declared to return text
+            inside = set(deep_walk(r, net))
+            # an authority written as a template here (not through make_netloc) is `<host>` or `<host>:<port>`
+            from ..strtpl import flatten
+            parts = flatten(net)
+            portp = ("param", "port")
+            if len([p0 for p0 in parts if p0[0] != "lit"]) >= 2 and any(portp in walk(p0[1]) for p0 in parts if p0[0] != "lit"):
+                ok_t = len(parts) == 3 and parts[1] == ("lit", ":") and parts[0][0] != "lit" and parts[2][0] != "lit" and \
+                    portp in walk(parts[2][1]) and portp not in walk(parts[0][1])
+                groups.setdefault("authority template", []).append(ok_t)
+            for p_ in ("user", "password", "host", "port"):
+                if p_ not in fi.params:
+                    continue
+                t = ("param", p_)
+                absent = truth(("cmp", "Is", t, NONE), s.facts) is True or truth(t, s.facts) is False
+                # the port may be elided when it is the scheme default
+                if p_ == "port" and any(fv is True and k[0] == "cmp" and k[1] == "Eq" and t in (k[2], k[3]) and "DEFAULT_PORTS" in show(k)
+                                        for k, fv in s.facts.items()):
+                    absent = True
+                host_absent = truth(("param", "host"), s.facts) is False
+                groups.setdefault(p_, []).append(absent or host_absent or t in inside)
+        tpl = groups.pop("authority template", None)
+        if tpl is not None:
+            ctx.instance(rule)
+            ctx.ob(rule, q, f"authority template on {len(tpl)} path(s)", all(tpl),
+                   "an authority assembled in place from host and port is not `<host>:<port>`: the stored authority would not "
+                   "split back into the host and port that were supplied", where(fi, fi.node), sample="<host>:<port>")
+        for p_, oks in groups.items():
+            ctx.instance(rule)
+            ctx.ob(rule, q, f"`{p_}` on {len(oks)} path(s)", all(oks),
+                   f"on some path a supplied `{p_}` is neither known to be absent nor part of the stored authority: it is silently dropped",
+                   where(fi, fi.node), sample="absent, or part of the stored authority")
+
+
 def f3_join(ctx: Ctx):
     model = ctx.model
     rule = "F3"
@@ -296,6 +381,12 @@ def f3_join(ctx: Ctx):
                "authority/path/query/fragment all from the reference")
             continue
         ob("netloc", f"netloc = {show(net)[:40]}", net == bn, "a reference without authority must inherit the base's authority", node, "base authority")
+        # relative resolution only against a base of the same scheme, and only for schemes that support it
+        same = truth(("cmp", "Eq", rs, bs), f) is True or truth(("cmp", "Eq", bs, rs), f) is True or truth(rs, f) is False or \
+            any(fv is True and k[0] == "cmp" and k[1] == "Eq" and bs in (k[2], k[3]) for k, fv in f.items())
+        ob("same-scheme", "scheme of a resolved reference", same,
+           "a reference is resolved against the base although its scheme is not known to be the base's (or empty): "
+           "`http://a/b`.join(`ftp:c`) must return the reference", node, "reference scheme empty or equal to the base's")
         # fragment: always the reference's
         ob("fragment", "fragment of the result", frag == rf,
            f"the fragment is {show(frag)[:40]} on some path: RFC 3986 5.2.2 always takes the reference's fragment "
